@@ -272,7 +272,19 @@ func (w *World) Run(x *simkit.Ctx) {
 	// attached as a waiting block behind the valid ones): the valid part is longer than the main
 	// chain and must be adopted.
 	var script []*simkit.Step
-	if x.CfgInt("tailopening", func(r *simkit.Rng) int { return r.Pick(3, 1) }) == 1 {
+	tailOpening := x.CfgInt("tailopening", func(r *simkit.Rng) int { return r.Pick(6, 2, 1) })
+	if tailOpening == 2 {
+		// the same on the main chain: two blocks are built on the empty chain, an invalid copy of the
+		// second one arrives first (it waits for its parent), then the parent (which extends the best
+		// block and pulls the waiting block in), then the genuine second block
+		kind := x.CfgInt("tailkind", func(r *simkit.Rng) int { return []int{fStateRoot, fReceiptRoot, fBadTx, fHeight}[r.Intn(4)] })
+		script = []*simkit.Step{
+			{Op: "build"}, {Op: "build"},
+			{Op: "forge", A: 1, B: 0, C: kind},
+			{Op: "deliver", A: 2}, {Op: "deliver", A: 0}, {Op: "deliver", A: 1},
+		}
+	}
+	if tailOpening == 1 {
 		kind := x.CfgInt("tailkind", func(r *simkit.Rng) int { return []int{fStateRoot, fReceiptRoot, fBadTx, fHeight}[r.Intn(4)] })
 		script = []*simkit.Step{
 			{Op: "build"}, {Op: "deliver", A: 0}, {Op: "branch", A: -1},
